@@ -37,6 +37,7 @@ type StoreScenario struct {
 	Idle  int       `json:"idle"`
 	Ops   []StoreOp `json:"ops"`
 	Conc  bool      `json:"conc"` // run Thr groups concurrently (memory-store linearizability)
+	Pre   []StoreOp `json:"pre"`  // concurrent scenarios: operations and clock advances run one after the other before the goroutines start
 }
 
 type storeDriver struct {
@@ -254,6 +255,9 @@ func (d *storeDriver) run(sc *StoreScenario) error {
 	default:
 		return fmt.Errorf("unknown store %q", sc.Store)
 	}
+	if os.Getenv("VERIF_ANNOUNCE") != "" {
+		fmt.Fprintf(os.Stderr, "VERIF-SCENARIO %s\n", sc.ID)
+	}
 	d.rec.emit(map[string]any{"ev": "sreset", "scenario": sc.ID, "store": sc.Store, "abs": sc.Abs, "idle": sc.Idle, "conc": sc.Conc})
 	ctx := context.Background()
 	type heldRead struct {
@@ -344,7 +348,27 @@ func (d *storeDriver) run(sc *StoreScenario) error {
 		}
 		d.rec.emit(ev)
 	}
+	tick := func(op StoreOp) {
+		d.mu.Lock()
+		d.now += int64(op.V)
+		now := d.now
+		d.mu.Unlock()
+		if mr != nil {
+			mr.FastForward(time.Duration(op.V) * time.Second)
+			mr.SetTime(baseTime.Add(time.Duration(now) * time.Second))
+		}
+		// `all`: the advance is longer than a configured limit, so every session written before it has timed out
+		all := (sc.Abs > 0 && op.V > sc.Abs) || (sc.Idle > 0 && op.V > sc.Idle)
+		d.rec.emit(map[string]any{"ev": "stick", "now": now, "all": all})
+	}
 	if sc.Conc {
+		for _, op := range sc.Pre {
+			if op.Op == "tick" {
+				tick(op)
+				continue
+			}
+			do(op, 0)
+		}
 		groups := map[int][]StoreOp{}
 		for _, op := range sc.Ops {
 			groups[op.Thr] = append(groups[op.Thr], op)
@@ -368,15 +392,7 @@ func (d *storeDriver) run(sc *StoreScenario) error {
 	}
 	for _, op := range sc.Ops {
 		if op.Op == "tick" {
-			d.mu.Lock()
-			d.now += int64(op.V)
-			now := d.now
-			d.mu.Unlock()
-			if mr != nil {
-				mr.FastForward(time.Duration(op.V) * time.Second)
-				mr.SetTime(baseTime.Add(time.Duration(now) * time.Second))
-			}
-			d.rec.emit(map[string]any{"ev": "stick", "now": now})
+			tick(op)
 			continue
 		}
 		do(op, 0)
